@@ -282,6 +282,8 @@ def run(ctx):
     tables = {}
     for s in ("accumulate", "ens2prob", "expandverif", "window"):
         tables[s] = ncwriter.writer_table(prog, "scripts.%s.main" % s)
+    for s_ in sorted(tables):
+        ncwriter.check_exact_coordinates(ctx, "C20.1", "scripts.%s.main" % s_, prog, prog.module("scripts.%s" % s_), tables[s_][0])
     check_passthrough(ctx, tables)
     check_accumulate(ctx, tables)
     check_ens2prob(ctx, tables)
